@@ -72,14 +72,17 @@ def build(spec):
     for m in range(len(spec["measures"])):
         part.add(tag(S.Measure(number=m + 1, name=str(m + 1))), bounds[m], bounds[m + 1])
     byid = {}
+    written = {w[0]: w[1] for w in spec.get("written", [])}
     for nid, kind, m, on, dur, pitch, voice, staff in spec.get("notes", []):
         step, alter, octave = STEPS[pitch % 7], (pitch // 7) % 3 - 1, 2 + (pitch // 21) % 4
+        # what an importer stores with a note: symbolic duration (dict), articulations / ornaments / technical (lists)
+        kw = {k: (dict(v) if isinstance(v, dict) else list(v)) for k, v in written.get(nid, {}).items()}
         if kind == "rest":
-            o = S.Rest(id=nid, voice=voice, staff=staff)
+            o = S.Rest(id=nid, voice=voice, staff=staff, **kw)
         elif kind == "grace":
             o = S.GraceNote("acciaccatura", step, octave, alter or None, id=nid, voice=voice, staff=staff)
         else:
-            o = S.Note(step, octave, alter or None, id=nid, voice=voice, staff=staff)
+            o = S.Note(step, octave, alter or None, id=nid, voice=voice, staff=staff, **kw)
         part.add(tag(o), bounds[m] + on, bounds[m] + on + dur)
         byid[nid] = o
     for a, b in spec.get("ties", []):
@@ -366,7 +369,7 @@ def dump_original(part, intern=None):
             if attr in getattr(o, "_ref_attrs", []) or ("_" + attr) in getattr(o, "_ref_attrs", []):
                 v = getattr(o, attr)
                 tg = [] if v is None else (list(v) if isinstance(v, list) else [v])
-                refs.append((ai, [t._pv for t in tg]))
+                refs.append((ai, [getattr(t, "_pv", -7) for t in tg]))
         rows.append((o._pv, cls_code(o), tp.t, None if o.end is None else o.end.t, sig_of(o, intern),
                      note_attrs(o, intern), refs))
     return rows
@@ -598,6 +601,7 @@ def run_impl(spec, variant_budget=6, rng=None, part=None):
     # unfolded parts: (label, path ids, update_ids, part)
     r.variants = []
     r.crashes = []
+    r.recall = {}        # label -> the same call once more (oracle_independent)
 
     def call(label, path, upd, f):
         try:
@@ -606,6 +610,8 @@ def run_impl(spec, variant_budget=6, rng=None, part=None):
             r.crashes.append((label, "%s: %s" % (type(e).__name__, e)))
             return
         r.variants.append((label, path, upd, u))
+        if label.startswith(("unfold_part_maximal", "unfold_part_minimal")):
+            r.recall[label] = f
 
     def tagged(u, entry):
         u._pv_entry = entry          # Coq term naming the entry point (Model/C09_api.v: entry)
@@ -643,6 +649,9 @@ def run_impl(spec, variant_budget=6, rng=None, part=None):
                     if j in keep:
                         r.variants.append(("iter_unfolded_parts(update_ids=%s)[%d]" % (upd, j), ps[pairing[j]], upd,
                                            tagged(u, "EIter")))
+                        if j < 3:
+                            r.recall[r.variants[-1][0]] = lambda j=j, upd=upd: next(itertools.islice(
+                                S.iter_unfolded_parts(part, update_ids=upd), j, None))
         except Exception as e:  # noqa
             r.crashes.append(("iter_unfolded_parts", "%s: %s" % (type(e).__name__, e)))
         # the other public constructors: new_part_from_path on a Path of another policy, make_score_variants
@@ -1535,6 +1544,25 @@ def gen_spec(rng, kind=None, rich=True, top=True):
         if rng.random() < 0.25:
             spec["barlines"] = [n]
     spec.update({"notes": notes, "ties": ties, "graces": graces, "slurs": slurs, "tuplets": tuplets})
+    # a third of the rich parts look like imported ones: their notes carry mutable attribute values (drawn from a
+    # stream of its own: the cases of the other streams stay what they were)
+    wr = __import__("random").Random(len(notes) * 7919 + sum(measures) + n)
+    if rich and wr.random() < 0.34:
+        spec["written"] = []
+        for nt in notes:
+            if nt[1] != "grace" and wr.random() < 0.6:
+                w = {}
+                if wr.random() < 0.7:
+                    w["symbolic_duration"] = dict({"type": wr.choice(["quarter", "eighth", "half"])},
+                                                  **({"dots": 1} if wr.random() < 0.3 else {}))
+                if wr.random() < 0.5:
+                    w["articulations"] = wr.sample(["staccato", "accent", "tenuto"], wr.randint(1, 2))
+                if wr.random() < 0.25:
+                    w["ornaments"] = ["trill-mark"]
+                if wr.random() < 0.15:
+                    w["technical"] = []
+                if w:
+                    spec["written"].append([nt[0], w])
     if top and rng.random() < 0.36:
         spec["history"] = gen_history(rng, spec)
     if top and rng.random() < 0.12:
@@ -1741,6 +1769,51 @@ def c_case(r, variants):
         clist([c_paths(pol, r.paths[pol]) for pol in POLICIES]), clist(vs), clist(es))
 
 
+LIST_ATTRS = ("slur_stops", "slur_starts", "tuplet_stops", "tuplet_starts")   # the list-valued entries of _ref_attrs
+
+
+def c_heap(r, v):
+    """Input of Model/C09_heap.v (check_heap) for one unfolded part: the lists held by the original's notes as a store
+    (numbered as met; contents = tags of the referenced objects), per visit of the path the notes of the visited
+    segment with the numbers of their lists, and the numbers of the lists the copies hold in the returned part (a
+    list object not seen before gets the next number, in the order visit / note / attribute; -1: no such list)."""
+    label, path, upd, u = v
+    addr, store, orig = {}, [], []
+    for tp, o in iter_points_objects(r.part):
+        if hasattr(o, "_pv") and all(isinstance(getattr(o, a, None), list) for a in LIST_ATTRS):
+            ads = []
+            for a in LIST_ATTRS:
+                l = getattr(o, a)
+                if id(l) not in addr:
+                    addr[id(l)] = len(store)
+                    store.append([getattr(x, "_pv", -1) for x in l])
+                ads.append(addr[id(l)])
+            orig.append((o._pv, tp.t, ads))
+    copies = {}
+    for tp, o in iter_points_objects(u):
+        if hasattr(o, "_pv"):
+            copies.setdefault((o._pv, tp.t), o)
+    nxt = len(store)
+    vs, observed = [], []
+    for s, e, off in visits_of(r, path)[0]:
+        os_ = []
+        for oid, t, ads in orig:
+            if s <= t < e:
+                os_.append("(%s, %s)" % (cz(oid), czl(ads)))
+                c = copies.get((oid, t - s + off))
+                for a in LIST_ATTRS:
+                    l = getattr(c, a, None)
+                    if not isinstance(l, list):
+                        observed.append(-1)
+                        continue
+                    if id(l) not in addr:
+                        addr[id(l)] = nxt
+                        nxt += 1
+                    observed.append(addr[id(l)])
+        vs.append(clist(os_))
+    return "(mkHC %s %s %s)" % (clist([czl(c) for c in store]), clist(vs), czl(observed))
+
+
 HIST_POLICIES = [(False, False, True), (False, True, False), (True, False, True)]   # all variants / maximal, leaps / minimal
 
 
@@ -1796,6 +1869,281 @@ def pick_variants(r, sub, small=False):
 
 
 # ----------------------------------------------------------------------------
+# the returned part is an independent copy: it shares no mutable state with the argument or with the other
+# unfolded parts (third hardening round)
+
+SHARE_EXEMPT = ("_ref_attrs",)   # per-object table of attribute NAMES (strings), constant after construction, not data
+
+
+def _is_container(o):
+    import numpy as np
+    return isinstance(o, (list, dict, set, bytearray, np.ndarray))
+
+
+def containers_of(part):
+    """{id: (how it is reached, container)} of every mutable container (list / dict / set / ndarray) reachable from
+    a part through instance attributes, container elements and dictionary values."""
+    import numpy as np
+    seen, out = set(), {}
+    stack = [(part, "Part")]
+    while stack:
+        o, path = stack.pop()
+        if id(o) in seen or o is None or isinstance(o, (str, bytes, int, float, complex, bool, type, np.generic)):
+            continue
+        seen.add(id(o))
+        if _is_container(o):
+            out[id(o)] = (path, o)
+        if isinstance(o, dict):
+            for k, v in o.items():
+                stack.append((v, "%s[%s]" % (path, getattr(k, "__name__", None) or type(k).__name__)))
+                stack.append((k, path + "[..]"))       # (the per-class object sets of a time point are keyed by object)
+        elif isinstance(o, (list, tuple, set, frozenset)):
+            for v in o:
+                stack.append((v, path + "[..]"))
+        elif isinstance(o, np.ndarray):
+            if o.dtype == object:
+                for v in o.ravel():
+                    stack.append((v, path + "[..]"))
+        elif hasattr(o, "__dict__") and not callable(o):
+            for k, v in vars(o).items():
+                if k not in SHARE_EXEMPT:
+                    stack.append((v, "%s.%s" % (type(o).__name__, k)))
+    return out
+
+
+def part_objects(part):
+    """Every object registered in the timeline of a part, once, in time-point order."""
+    out, seen = [], set()
+    for tp in part._points:
+        for d in (tp.starting_objects, tp.ending_objects):
+            for cls in list(d):
+                for o in d[cls]:
+                    if id(o) not in seen:
+                        seen.add(id(o))
+                        out.append(o)
+    return out
+
+
+def state_of(part, by_position):
+    """Canonical description of everything a part holds: per time point (t, quarter) and per registered object its
+    class, span and EVERY instance attribute (containers element by element).  References to other objects are
+    written by identity (by_position=False: the same part before / after) or by (class, start, rank among the
+    objects of that class starting there) (by_position=True: two parts that should be equal); an object that is
+    not registered in this part is written FOREIGN."""
+    import numpy as np
+    pos = {}
+    for tp in part._points:
+        for cls in list(tp.starting_objects):
+            for i, o in enumerate(tp.starting_objects[cls]):
+                pos[id(o)] = (cls.__name__, tp.t, i)
+    points = {id(tp) for tp in part._points}
+
+    def canon(v, depth=0):
+        if v is None or isinstance(v, (str, bytes, int, float, complex, bool, np.generic)):
+            return repr(v)
+        if isinstance(v, np.ndarray):
+            return ["array"] + [canon(x, depth + 1) for x in v.ravel().tolist()]
+        if isinstance(v, (list, tuple)):
+            return [type(v).__name__] + [canon(x, depth + 1) for x in v]
+        if isinstance(v, (set, frozenset)):
+            return ["set"] + sorted(json.dumps(canon(x, depth + 1), default=str) for x in v)
+        if isinstance(v, dict):
+            return ["dict"] + sorted(json.dumps([canon(k, depth + 1), canon(x, depth + 1)], default=str) for k, x in v.items())
+        if id(v) in pos:
+            return ["obj"] + (list(pos[id(v)]) if by_position else [type(v).__name__, id(v)])
+        if id(v) in points:
+            return ["tp", v.t]
+        if hasattr(v, "t") and hasattr(v, "starting_objects"):
+            return ["FOREIGN time point", v.t]
+        if hasattr(v, "replace_refs") or hasattr(v, "start") and hasattr(v, "end"):
+            return ["FOREIGN", type(v).__name__, str(getattr(v, "id", None))]
+        if isinstance(v, type) or callable(v):
+            return getattr(v, "__name__", type(v).__name__)
+        if depth < 3 and hasattr(v, "__dict__"):
+            return [type(v).__name__] + [[k, canon(x, depth + 1)] for k, x in sorted(vars(v).items())]
+        return type(v).__name__
+    out = {"points": [[tp.t, tp.quarter, None if tp.prev is None else tp.prev.t, None if tp.next is None else tp.next.t,
+                       sorted(c.__name__ for c in tp.starting_objects if tp.starting_objects[c]),
+                       sorted(c.__name__ for c in tp.ending_objects if tp.ending_objects[c])] for tp in part._points],
+           "quarters": [canon(part._quarter_times), canon(part._quarter_durations)], "objects": {}}
+    for o in part_objects(part):
+        key = "%s %s" % (json.dumps(pos.get(id(o), ["?", type(o).__name__, id(o)])) if by_position else id(o), type(o).__name__)
+        out["objects"][key] = [[k, canon(x)] for k, x in sorted(vars(o).items()) if not k.startswith("_pv")]
+    return out
+
+
+def state_diff(a, b, skip=()):
+    """First difference of two state_of descriptions (None when equal); objects whose key is in `skip` are ignored."""
+    if a["points"] != b["points"]:
+        for x, y in itertools.zip_longest(a["points"], b["points"]):
+            if x != y:
+                return "time point %r became %r" % (x, y)
+    if a["quarters"] != b["quarters"]:
+        return "quarter durations %r became %r" % (a["quarters"], b["quarters"])
+    for k in a["objects"]:
+        if k in skip:
+            continue
+        if k not in b["objects"]:
+            return "object %s is gone" % k
+        if a["objects"][k] != b["objects"][k]:
+            for (n, x), (n2, y) in itertools.zip_longest(a["objects"][k], b["objects"][k], fillvalue=(None, None)):
+                if (n, x) != (n2, y):
+                    return "%s.%s was %s, is %s" % (k.split(" ")[-1], n or n2, json.dumps(x, default=str)[:160],
+                                                    json.dumps(y, default=str)[:160])
+    for k in b["objects"]:
+        if k not in a["objects"] and k not in skip:
+            return "new object %s" % k
+    return None
+
+
+def foreign_refs(st):
+    return [k for k, attrs in st["objects"].items() if "FOREIGN" in json.dumps(attrs, default=str)]
+
+
+def edit_returned(u, rr):
+    """Work on an unfolded part as a user would: public API first (Slur / Tuplet / Tie between two of its notes,
+    note attributes, a note removed), then a mark in every mutable container reachable from it.
+    Yields (description, ids of the objects the edit is allowed to change) after each edit."""
+    import partitura.score as S
+    import numpy as np
+    notes = [n for n in u.iter_all(S.GenericNote, include_subclasses=True) if n.end is not None and n.end.t > n.start.t]
+    touched = set()
+    if len(notes) >= 2:
+        firsts = sorted(notes, key=lambda n: n.start.t)
+        pairs = [(firsts[0], firsts[1])]
+        i = rr.randrange(len(firsts) - 1)
+        pairs.append((firsts[i], firsts[rr.randrange(i + 1, len(firsts))]))
+        for cls, (a, b) in zip((S.Slur, S.Tuplet), rr.sample(pairs, 2)):
+            o = cls(a, b)
+            u.add(o, a.start.t, b.end.t)
+            touched |= {id(a), id(b), id(o)}
+            yield "%s(%s, %s) added" % (cls.__name__, a.id, b.id), set(touched)
+        a, b = rr.choice(pairs)
+        if a.tie_next is None and b.tie_prev is None and isinstance(a, S.Note) and isinstance(b, S.Note):
+            a.tie_next, b.tie_prev = b, a
+            touched |= {id(a), id(b)}
+            yield "tie %s -> %s set" % (a.id, b.id), set(touched)
+    if notes:
+        n = rr.choice(notes)
+        n.voice, n.staff, n.id = 7, 5, "edited"
+        if isinstance(n, S.Note):
+            n.step, n.octave, n.alter = "B", 7, 1
+        touched.add(id(n))
+        yield "voice/staff/id/pitch of a note at t=%d changed" % n.start.t, set(touched)
+        n = rr.choice(notes)
+        for other in part_objects(u):          # the objects that refer to the removed note may change with it
+            for k, v in vars(other).items():
+                if v is n or (isinstance(v, list) and any(x is n for x in v)):
+                    touched.add(id(other))
+        touched.add(id(n))
+        for x in list(n.slur_starts) + list(n.slur_stops) + list(n.tuplet_starts) + list(n.tuplet_stops):
+            if x is not None:
+                touched.add(id(x))
+        t = n.start.t
+        u.remove(n)
+        yield "note at t=%d removed" % t, set(touched)
+    marks = 0
+    for path, c in list(containers_of(u).values()):
+        if isinstance(c, list):
+            c.append("PV-MARK")
+        elif isinstance(c, dict):
+            c["PV-MARK"] = []
+        elif isinstance(c, set):
+            c.add("PV-MARK")
+        elif isinstance(c, np.ndarray) and c.dtype != object and c.size and c.flags.writeable and path.startswith("Part."):
+            c.flat[0] += 1
+        marks += 1
+    yield "a mark written into each of the %d lists / dicts / sets / arrays reachable from the part" % marks, None
+
+
+def oracle_independent(r, rng=None):
+    """State shared between the returned part and the argument / the other returned parts.  (a) identity: no
+    mutable container reachable from an unfolded part is reachable from the original or from another unfolded
+    part; (b) behaviour: some of the returned parts are edited (edit_returned); after every edit the original
+    (fingerprint and full state), every other part returned in this step and the untouched objects of the edited
+    part are as they were, no reference leaves a part, and (c) the same call on the original gives a part equal to
+    the one it gave first."""
+    import random
+    bad = []
+    vs = [v for v in r.variants if len(v[3]._points)]
+    if not vs:
+        return bad
+    rr = rng or random.Random(len(vs))
+    watch = vs if len(vs) <= 6 else rr.sample(vs, 6)
+    # (a) identity
+    owner = {i: ("the original part", p) for i, (p, _) in containers_of(r.part).items()}
+    for label, path, upd, u in watch:
+        for i, (p, c) in containers_of(u).items():
+            if i in owner:
+                bad.append(("shared", "%s (%s, %d elements) of the part returned by %s is the SAME object as %s of %s: the "
+                            "unfolded part shares mutable state" % (p, type(c).__name__, len(c), label, owner[i][1], owner[i][0]),
+                            {"call": label}))
+                break
+            owner[i] = ("the part returned by " + label, p)
+        if bad:
+            break
+    # (b) behaviour
+    fp = fingerprint(r.part)
+    orig0 = state_of(r.part, False)
+    before = [(v, state_of(v[3], False), state_of(v[3], True)) for v in watch]
+    recall = getattr(r, "recall", {})
+    edited = rr.sample(watch, min(2 if rr.random() < 0.25 else 1, len(watch)))
+    for ev in edited:
+        label, u = ev[0], ev[3]
+        mine = [b for b in before if b[0] is ev][0]
+        done = []
+        try:
+            for what, allowed in edit_returned(u, rr):
+                done.append(what)
+                msg = None
+                d = state_diff(orig0, state_of(r.part, False))
+                if d or (allowed is None and fingerprint(r.part) != fp):
+                    msg = "the ORIGINAL part changed (%s)" % (d or "fingerprint")
+                # the other parts: after the last edit through the API and after the marks
+                for v, s_id, _ in (before if allowed is None or what.startswith("note at") else []):
+                    if msg is None and v is not ev:
+                        d = state_diff(s_id, state_of(v[3], False))
+                        if d:
+                            msg = "the part returned earlier by %s changed (%s)" % (v[0], d)
+                if msg is None and allowed is not None:
+                    now = state_of(u, False)
+                    skip = {k for k in list(mine[1]["objects"]) + list(now["objects"]) if int(k.split(" ")[0]) in allowed}
+                    d = state_diff({"points": [], "quarters": [], "objects": mine[1]["objects"]},
+                                   {"points": [], "quarters": [], "objects": now["objects"]}, skip)
+                    if d:
+                        msg = "an object of the edited part that the edit does not concern changed (%s)" % d
+                    fr = [k for k in foreign_refs(now) if k not in skip]
+                    if msg is None and fr:
+                        msg = "object %s of the edited part refers to an object outside the part" % fr[0]
+                if msg:
+                    bad.append(("aliased", "after editing only the part RETURNED by %s (%s): %s"
+                                % (label, "; ".join(done), msg), {"call": label, "edits": done}))
+                    break
+        except Exception as e:  # noqa  (the edit itself failed: the returned part is not a usable part)
+            bad.append(("aliased", "editing the part returned by %s (%s) raised %s: %s"
+                        % (label, "; ".join(done) or "Slur added", type(e).__name__, e), {"call": label}))
+        before = [b for b in before if b[0] is not ev]      # an edited part is not looked at again
+        if bad:
+            break
+    # (c) the same call again on the (untouched) original
+    again_for = [b for b in before if b[0][0] in recall]
+    for v, _, s_pos in (again_for if len(again_for) <= 2 else rr.sample(again_for, 2)):
+        if not any(b[0] == "aliased" for b in bad):
+            try:
+                again = recall[v[0]]()
+            except Exception as e:  # noqa
+                bad.append(("aliased", "%s worked first and raised %s: %s after the parts returned earlier had been edited"
+                            % (v[0], type(e).__name__, e), {"call": v[0]}))
+                break
+            d = state_diff(s_pos, state_of(again, True))
+            if d:
+                bad.append(("aliased", "%s on the untouched original gives another part after the parts returned earlier "
+                            "have been edited (%s)" % (v[0], d), {"call": v[0]}))
+                break
+    return bad[:3]
+
+
+# ----------------------------------------------------------------------------
 # the check
 
 
@@ -1834,7 +2182,20 @@ def examine(spec, rng=None, part=None):
     return r, oracle(r), None
 
 
-def examine_history(spec, rng=None):
+def independent_step(r, bad, skip, rng, after):
+    """Last thing done with the unfolded parts of a step: `after` (the caller dumps them for the model), then they are
+    edited (oracle_independent)."""
+    if r is None:
+        return bad
+    if after is not None:
+        after(r, skip)
+    try:
+        return bad + with_alarm(20, lambda: oracle_independent(r, rng))
+    except _Timeout:
+        return bad
+
+
+def examine_history(spec, rng=None, after=None):
     """All steps of a case: [(run | None, bad, skip, spec of the step, step label)].
     Step 0: the part as built (after add_segments when the spec says so), every entry point; also as a member
     of a Score when the spec says so.  Step k (k-th operation of the history): the SAME Part object changed
@@ -1849,12 +2210,15 @@ def examine_history(spec, rng=None):
         except _Timeout:
             sb = []
         bad = bad + [(k, m, {"call": "Score"}) for k, m in sb]
+    bad = independent_step(r, bad, skip, rng, after)
     steps.append((r, bad, skip, spec, "as built"))
     cur = spec
     hist = history_of(spec)
     for k, op in enumerate(hist):
         if r is None or skip is not None:
             break
+        if any(b[0] in ("aliased", "shared") for b in bad):
+            break          # the original may have been changed through a returned part: nothing to continue with
         part = r.part
         cur = apply_op(part, cur, op)
         r, bad, skip = examine(cur, rng=rng, part=part)
@@ -1864,6 +2228,7 @@ def examine_history(spec, rng=None):
                 bad = bad + [(kd, m, {"call": "fresh"}) for kd, m in with_alarm(20, lambda: oracle_fresh(r))]
             except _Timeout:
                 pass
+        bad = independent_step(r, bad, skip, rng, after)
         bad = [(kd, "after %s on the part unfolded before: %s" % (json.dumps(hist[:k + 1]), m), x) for kd, m, x in bad]
         steps.append((r, bad, skip, cur, "after step %d" % (k + 1)))
     return steps
@@ -1983,7 +2348,7 @@ def shrink(spec, kind):
                 s = t
             else:
                 i += 1
-    for key in ("slurs", "tuplets", "ties", "graces", "fermatas", "words", "pages", "barlines", "qdchanges"):
+    for key in ("slurs", "tuplets", "ties", "graces", "fermatas", "words", "pages", "barlines", "qdchanges", "written"):
         if s.get(key):
             t = dict(s)
             t[key] = []
@@ -2014,6 +2379,8 @@ def classify(spec):
         feats.append("grace")
     if len(spec.get("ts", [])) > 1 or spec.get("qdchanges"):
         feats.append("sigchange")
+    if spec.get("written"):
+        feats.append("notes_with_mutable_attribute_values")
     return feats
 
 
@@ -2041,8 +2408,14 @@ def work(item):
     """One case in a worker process: implementation, direct oracle, Coq term.  Everything returned is plain data."""
     idx, origin, spec, seed = item
     sub = __import__("random").Random(seed)
+    def dump_for_model(r, skip):     # before the unfolded parts are edited
+        if skip is None and not (origin == "small" and len(r.segs) > 5):
+            r.term = c_case(r, pick_variants(r, sub, small=(origin == "small")))
+            if r.variants:
+                r.heap_term = c_heap(r, sub.choice(r.variants))
+
     try:
-        steps = examine_history(spec, rng=sub)
+        steps = examine_history(spec, rng=sub, after=dump_for_model)
     except Exception as e:  # building the part failed: harness problem, report loudly
         return {"idx": idx, "error": "%s: %s" % (type(e).__name__, e), "steps": []}
     out = {"idx": idx, "steps": []}
@@ -2061,8 +2434,10 @@ def work(item):
                       entries=sorted({v[0].split("(")[0].split("[")[0] for v in r.variants}),
                       nav_ref=nav_reference(spec_n, "max", True) is not None,
                       sample={"spec": spec_n, "step": label, "segments": r.segs, "paths_all": r.paths[POLICIES[0]]})
-            if skip is None and not (origin == "small" and len(r.segs) > 5):
-                st["term"] = c_case(r, pick_variants(r, sub, small=(origin == "small")))
+            if getattr(r, "term", None) is not None:
+                st["term"] = r.term
+            if getattr(r, "heap_term", None) is not None:
+                st["heap"] = r.heap_term
         out["steps"].append(st)
     return out
 
@@ -2088,7 +2463,13 @@ def run(ctx):
                 "added) and everything is run again.  Cases with a da capo / dal segno / first ending from the "
                 "beginning / first time > 0 (and a quarter of the others) are compared with their twin starting at "
                 "another time.  thorough adds every structure over 5 measures with <= 2 repeats / one volta group x "
-                "D.C./D.S./Fine/Coda arrangements having <= 5 segments, each at first time 0 and 3.  Distinct "
+                "D.C./D.S./Fine/Coda arrangements having <= 5 segments, each at first time 0 and 3.  Every step ends "
+                "with the independence stream: the returned parts share no list / dict / set / array with the original "
+                "or with each other (identity), one or two of them are edited (Slur / Tuplet / tie between their notes, "
+                "note attributes, a note removed, a mark in every reachable container) and the original, the other "
+                "returned parts and the untouched objects of the edited part must be as before, the same call again "
+                "gives an equal part; a third of the rich parts carry notes with symbolic_duration / articulations / "
+                "ornaments / technical values as importers store them.  Distinct "
                 "non-trivial = distinct (marks, notes) whose segment table has a segment with >= 2 destinations.")
     ctx.trusted = ["Coq 8.16.1 kernel incl. vm_compute",
                    "harness/props/c09.py: abstraction of a Part (marks in iter_all order, object dump in time-point/"
@@ -2127,7 +2508,7 @@ def run(ctx):
     nproc = max(1, min(core.NJOBS, len(items)))
     pool = multiprocessing.get_context("fork").Pool(nproc)
     results = pool.imap(work, items, chunksize=2 if quick else 8)
-    ok, why = ctx.coq_props(expect_min=40)
+    ok, why = ctx.coq_props(expect_min=43)
     shard = 24 if quick else 60
     executor = ThreadPoolExecutor(max_workers=max(1, core.NJOBS))
     futures = []          # (first global index, future)
@@ -2144,6 +2525,7 @@ def run(ctx):
 
     nviol = 0
     hterms, hkept = [], []
+    heapterms, heapkept = [], []
     for res in results:
         origin, spec = specs[res["idx"]]
         if "error" in res:
@@ -2198,6 +2580,9 @@ def run(ctx):
                 ctx.count("skipped:too_long_for_model")
                 continue
             ctx.sample(st["sample"], limit=3)
+            if "heap" in st:
+                heapterms.append(st["heap"])
+                heapkept.append((spec, label))
             if "term" in st:
                 terms.append(st["term"])
                 kept.append((spec, label))
@@ -2210,6 +2595,8 @@ def run(ctx):
         hfut = executor.submit(ctx.coq_failing, "hist", "From PV Require Import Model.C09 Model.C09_api Model.C09_hist.", "",
                                hterms, "fun h => Z.eqb (check_history h) 0", 40, 1500,
                                "(marks * list hitem)%type") if hterms else None
+        heapfut = executor.submit(ctx.coq_failing, "heap", "From PV Require Import Model.C09_heap.", "", heapterms,
+                                  "check_heap", 150, 1500, "heapcase") if heapterms else None
         failing, err = [], None
         for lo, fut in futures:
             try:
@@ -2222,7 +2609,22 @@ def run(ctx):
                 hfailing = sorted(hfut.result())
             except RuntimeError as e:
                 err = str(e)
+        heapfailing = []
+        if heapfut is not None:
+            try:
+                heapfailing = sorted(heapfut.result())
+            except RuntimeError as e:
+                err = str(e)
         executor.shutdown()
+        if err is None:
+            ctx.obligation("correspondence: the lists held by the copies in an unfolded part (slur_starts / slur_stops / "
+                           "tuplet_starts / tuplet_stops of every copy of every visit) are, by object identity, the cells the "
+                           "heap model Model/C09_heap.v allocates (visits false: one new list per copy and attribute, none "
+                           "of the original's), on %d unfolded parts" % len(heapterms), not heapfailing, heapfailing[:5])
+            for i in heapfailing[:2]:
+                ctx.violation("an unfolded part holds a list object that the original part (or another copy in it) holds "
+                              "too: the identities of the slur / tuplet lists of its notes are not those of the heap model "
+                              "(check_heap)", {"spec": heapkept[i][0], "step": heapkept[i][1], "kind": "heap-correspondence"})
         if err is None:
             ctx.obligation("correspondence: the state machine of Model/C09_hist.v (marks of the part now + registered "
                            "segments; operations: marks changed through Part.add/remove, TimePoint methods or in place, "
